@@ -7,7 +7,7 @@ use vcore::runner::Property;
 fn build() -> Vec<Box<dyn Property>> {
     {
         let mut v: Vec<Box<dyn Property>> = vec![];
-        for id in ["C16", "C20", "C15"] {
+        for id in ["C16", "C20"] {
             for s in stages(id) {
                 if s.prop.stage() != "large" {
                     v.push(s.prop);
